@@ -35,6 +35,14 @@ def parseOp : List String → Option Op
       | some (some x) => some (some x) | _ => none
     let si ← parseSchedIn [k, hx, off, v]
     some (.update id st (some si))
+  | ["optupd", id, ev, cr, off, v] => do
+    let id ← id.toNat?
+    let opt (x : String) : Option (Option String) :=
+      if x = "_" then some none else (hexToString x).bind fun v => if v = "" then none else some (some v)
+    let ev ← opt ev
+    let cr ← opt cr
+    let off ← if off = "_" then some none else off.toInt?.map some
+    some (.optUpdate id ev cr off (← parseBool v))
   | ["delete", id] => id.toNat?.map .delete
   | ["restart", k, ps] => do
     let k ← if k = "L" then some RestartKind.launcher else if k = "N" then some .plain
@@ -132,6 +140,9 @@ def tagsOf (prev : Option Obs) (op : Op) (o : Obs) : List String :=
   | .update id (some .inactive) _, .ok => if stOf id = some .active then ["deactivate"] else ["update-inactive"]
   | .update id (some .active) _, .ok => if stOf id = some .inactive then ["reactivate"] else ["update-active"]
   | .update id none (some _), .ok => if stOf id = some .active then ["reschedule-active"] else ["reschedule-inactive"]
+  | .optUpdate id _ _ _ _, .ok => if stOf id = some .active then ["options-patch-active"] else ["options-patch-inactive"]
+  | .optUpdate _ _ _ _ _, .err .notfound => ["update-notfound"]
+  | .optUpdate _ _ _ _ _, .err _ => ["options-patch-rejected"]
   | .update _ _ _, .err .notfound => ["update-notfound"]
   | .update _ _ _, .err _ => ["update-rejected"]
   | .delete _, .ok => ["delete"]
